@@ -59,6 +59,7 @@ def part_a():
     ok &= mc_expect("Drop.tla", "MC_Drop_noerrfix.cfg", "drop_stderr_end_held_during_wait", False)
     ok &= mc_expect("Drop.tla", "MC_Drop.cfg", "drop_repaired", True)
     ok &= mc_expect("MCPipeline.tla", "MC_Pipeline_clone.cfg", "pipeline_stdout_cloned", False)
+    ok &= mc_expect("MCPipeline.tla", "MC_Pipeline_rebuild.cfg", "pipeline_rebuilt_on_append", False)
     ok &= mc_expect("MCPipeline.tla", "MC_Pipeline.cfg", "pipeline_faithful", True)
     ok &= mc_expect("MCCommWin.tla", "MC_CommWin_pinned_dl.cfg", "commwin_F15_no_deadline_check", False)
     ok &= mc_expect("MCCommWin.tla", "MC_CommWin_pinned_eof.cfg", "commwin_F16_close_after_send", False)
